@@ -39,6 +39,57 @@ theorem C06_linecol (s : List Char) (pos : Nat) :
 theorem C06_linecol_inj (s : List Char) (p q : Nat) (h : posToLineCol s p = posToLineCol s q) : p = q :=
   posToLineCol_inj s p q h
 
+/-- the line number never decreases along the text -/
+theorem C06_line_monotone (s : List Char) (p q : Nat) (h : p ≤ q) :
+    (posToLineCol s p).1 ≤ (posToLineCol s q).1 := by
+  rw [(C06_linecol s p).1, (C06_linecol s q).1]
+  have := (List.take_sublist_take_left (l := s) h).count_le '\n'
+  omega
+
+theorem count_take_lt_of_newline (s : List Char) (p i q : Nat) (hpi : p ≤ i) (hiq : i < q)
+    (hi : s[i]? = some '\n') : (s.take p).count '\n' < (s.take q).count '\n' := by
+  have h1 := (List.take_sublist_take_left (l := s) hpi).count_le '\n'
+  have h2 := (List.take_sublist_take_left (l := s) (show i + 1 ≤ q from hiq)).count_le '\n'
+  have h3 : (s.take (i + 1)).count '\n' = (s.take i).count '\n' + 1 := by
+    rw [List.take_add_one, hi]; simp
+  omega
+
+/-- on one line the column grows strictly with the position -/
+theorem C06_col_monotone (s : List Char) (p q : Nat) (h : p < q)
+    (hl : (posToLineCol s p).1 = (posToLineCol s q).1) :
+    (posToLineCol s p).2 < (posToLineCol s q).2 := by
+  obtain ⟨lp, sp, hsp, cp, bp, np⟩ := C06_linecol s p
+  obtain ⟨lq, sq, hsq, cq, bq, nq⟩ := C06_linecol s q
+  have hc : (s.take p).count '\n' = (s.take q).count '\n' := by omega
+  have hno : ∀ i, p ≤ i → i < q → s[i]? ≠ some '\n' := by
+    intro i h1 h2 h3
+    have := count_take_lt_of_newline s p i q h1 h2 h3
+    omega
+  have hle : sq ≤ sp := by
+    rcases bq with h0 | hnl
+    · omega
+    · by_cases hlt : sq ≤ sp
+      · exact hlt
+      · exfalso
+        by_cases h1 : sq - 1 < p
+        · exact np (sq - 1) (by omega) h1 hnl
+        · exact hno (sq - 1) (by omega) (by omega) hnl
+  rw [cp, cq]
+  omega
+
+/-- **(line, column) is strictly monotone in the position** (lexicographically): a later position
+is on a later line, or on the same line at a larger column — so sorting diagnostics or objects by
+`(line, col)` is sorting by text position, for every text (any mix of `\n`, `\r`, no final newline). -/
+theorem C06_linecol_strict_mono (s : List Char) (p q : Nat) (h : p < q) :
+    (posToLineCol s p).1 < (posToLineCol s q).1 ∨
+      ((posToLineCol s p).1 = (posToLineCol s q).1 ∧ (posToLineCol s p).2 < (posToLineCol s q).2) := by
+  rcases Nat.lt_or_eq_of_le (C06_line_monotone s p q (Nat.le_of_lt h)) with hlt | heq
+  · exact Or.inl hlt
+  · exact Or.inr ⟨heq, C06_col_monotone s p q h heq⟩
+
+example : posToLineCol "ab\ncd".toList 1 = (1, 2) ∧ posToLineCol "ab\ncd".toList 2 = (1, 3) ∧
+    posToLineCol "ab\ncd".toList 3 = (2, 1) := by decide
+
 /-- **Span of a parse-tree node.**  In a well-formed tree the span of every node starts at its
 first terminal and ends right after its last one, and is not empty. -/
 theorem C06_tree_span (t : PT) (h : t.WF) :
